@@ -33,10 +33,14 @@ DISABLED = [b'x-secret', b'accept-language']
 _FLAGS: Dict[Any, Any] = {}
 
 
-def flags_for(disable: bool, pool: bool = False, events: bool = False) -> Any:
+PP_LINE = b'PROXY TCP4 192.0.2.1 192.0.2.2 56324 443\r\n'
+
+
+def flags_for(disable: bool, pool: bool = False, events: bool = False, pp: bool = False) -> Any:
     # fresh flags for every case: what one request does to process-wide configuration (e.g. the operator's
     # disabled-header list) must show in the case that did it, so that its replay file reproduces it
-    argv = ['--threadless'] + (['--enable-conn-pool'] if pool else []) + (['--enable-events'] if events else [])
+    argv = ['--threadless'] + (['--enable-conn-pool'] if pool else []) + (['--enable-events'] if events else []) + \
+        (['--enable-proxy-protocol'] if pp else [])
     if disable:
         argv += ['--disable-headers', ','.join(d.decode() for d in DISABLED)]
     return K.make_flags(argv)
@@ -66,13 +70,17 @@ def origin_form(target: bytes) -> bytes:
 
 def run_case(c: Dict[str, Any]) -> Dict[str, Any]:
     raw = G.render(c['req'])
-    flags = flags_for(c.get('disable', False), c.get('pool', False), c.get('events', False))
+    flags = flags_for(c.get('disable', False), c.get('pool', False), c.get('events', False), c.get('pp', False))
     w = K.World(flags, max_iters=20000)
     reqs: List[Tuple[bytes, List[int]]] = []
     warm = c.get('warm') or ['get'] * (c['position'] - 1)
     for i in range(c['position'] - 1):
         reqs.append((WARM[warm[i]](i), []))
     reqs.append((raw, c['cuts']))
+    if c.get('pp'):
+        # --enable-proxy-protocol: the connection opens with a PROXY line (HAProxy v1) ahead of its first request
+        first_raw, first_cuts = reqs[0]
+        reqs[0] = (PP_LINE + first_raw, [x + len(PP_LINE) for x in first_cuts])
     client = ReactiveClient('client', reqs)
     w.add_client(client)
     origins: List[ReactiveOrigin] = []
@@ -202,7 +210,7 @@ def cases(draw: Any) -> Dict[str, Any]:
     req['fh_pos'] = draw(st.integers(0, len(req['headers'])))
     raw = G.render(req)
     position = draw(st.sampled_from([1, 1, 2, 3]))
-    c = {'req': req, 'disable': disable, 'position': position, 'pool': draw(st.integers(0, 4)) == 0, 'events': draw(st.integers(0, 4)) == 0,
+    c = {'req': req, 'disable': disable, 'position': position, 'pool': draw(st.integers(0, 4)) == 0, 'events': draw(st.integers(0, 4)) == 0, 'pp': draw(st.integers(0, 4)) == 0,
          'warm': [draw(st.sampled_from(['get', 'chunked', 'cl', 'cl0'])) for _ in range(position - 1)],
          'cuts': draw(G.cut_set(len(raw), raw)), 'schedule': draw(st.lists(st.integers(0, 2), max_size=30))}
     return c
@@ -219,7 +227,7 @@ def run_shard(spec: Dict[str, Any], seed: int, acc: Any) -> None:
         req = c['req']
         labs = ['framing:' + req['framing'], 'position:%d' % c['position'], 'version:' + req['version'].decode(),
                 'segments:' + ('1' if info['segments'] == 1 else '2-8' if info['segments'] <= 8 else '>8')]
-        labs += ['after:' + k_ for k_ in sorted(set(c.get('warm') or []))] + (['conn-pool'] if c.get('pool') else []) + (['events-enabled'] if c.get('events') else [])
+        labs += ['after:' + k_ for k_ in sorted(set(c.get('warm') or []))] + (['conn-pool'] if c.get('pool') else []) + (['events-enabled'] if c.get('events') else []) + (['proxy-protocol'] if c.get('pp') else [])
         if not req['body'] and req['framing'] == 'cl':
             labs.append('content-length-0')
         if not req['body'] and req['framing'] == 'chunked':
